@@ -132,7 +132,20 @@ class JsonCacheHandler(BaseCacheHandler):
             logger.error(msg)
         # Load cache data into memory data cache, if everything went smooth
         else:
-            self.__update_memory_cache(cache_data)
+            try:
+                self.__update_memory_cache(cache_data)
+            except KeyboardInterrupt:
+                raise
+            # Well-formed JSON with unexpected structure must not leave
+            # partially filled memory cache behind
+            except:
+                msg = 'error during loading cache into memory'
+                logger.error(msg)
+                self.__type_storage.clear()
+                self.__attr_storage.clear()
+                self.__effect_storage.clear()
+                self.__buff_template_storage.clear()
+                self.__fingerprint = None
 
     def update_cache(self, eve_objects, fingerprint):
         types, attrs, effects, buff_templates = eve_objects
